@@ -8,9 +8,33 @@ TRUST = ("Trusted: go/types+go/ssa front end, the VC generator in /verif/engine,
          "library callees without a contract modify only what their arguments point to; no concurrency. ")
 
 CLAIMED = {
+ "C01": dict(
+   text="Deductive proof over certGenHandler: the level loop carries a quantified invariant (sufficient <=> some listed method matches a proven factor bit), and both signing wrappers are reached only under ghostAuthed && sufficientLevel(operator list, level established by checkAuth); all 2^64 level values and lists of any length.",
+   note=TRUST + "checkAuth's ghost assignments (who/which level was established) are specified by its contract; its body is verified under C04/C06 clauses where claimed. 'password' in the operator list admits any valid credential (documented behaviour).",
+   design="7 (C01)"),
+ "C02": dict(
+   text="Deductive proof that the certificate endpoint signs only for targetUser == the user checkAuth established, that GenSSHCertFileString emits exactly one principal (the user), user type, the parsed submitted key, and that the X.509 templates carry the user as CN, the submitted key, the CA as parent, non-CA + client-auth usage (call-site assertions on x509.CreateCertificate).",
+   note=TRUST + "ssh.ParseAuthorizedKey, SignCert and x509.CreateCertificate are trusted contracts (they emit what the template says). SSH extension set equality is not claimed yet.",
+   design="7 (C02)"),
+ "C03": dict(
+   text="Bit-precise (BV64 + IEEE-754) proof that SSH validity never wraps, starts now and is at most duration/1s+1, with time.Duration.Seconds inlined from the standard library; X.509 NotBefore=now, NotAfter=now+duration at the CreateCertificate call sites; certGenHandler reaches the signers only with duration <= 24h and now+duration <= issuedAt+24h; role certificates carry exactly 45 days.",
+   note=TRUST + "float64->uint64 modelled as lowered on amd64; one clock instant per request; time values within 1970..2116.",
+   design="7 (C03)"),
+ "C10": dict(
+   text="Deductive proof that ValidatePublicKeyStrength accepts exactly the property's strong keys (RSA >= 2048 bits and e >= 65537, NIST >= 256, Ed25519) and that every signing wrapper (SSH, X.509, Kubernetes, automation, refresh) is reached only with a key for which that predicate holds; no-panic obligations (index, nil, type assertion) for the address-extension decoder and the SSH key validator.",
+   note=TRUST + "Parsers (x509, ssh, asn1) are trusted to return well-shaped values (type invariant of asn1.BitString; NIST curve sizes). The cloud-role path and panics inside dependency parsers are not covered.",
+   design="7 (C10)"),
+ "C11": dict(
+   text="Deductive proof (mathematical-int mode with no-overflow obligations) that the RFC 3779 decoder never panics, never accepts a prefix longer than 32 bits, and that a refresh request keeps the authenticated identity.",
+   note=TRUST + "Round-trip equality of netblocks and the iff-membership clause are not yet under contract (declared in DESIGN.md).",
+   design="7 (C11)"),
+ "C13": dict(
+   text="String-theory proof that CanRedirectToURL accepts only https, no query, no '..', a host equal to or a subdomain of a configured domain (exists-quantified over the list), a matching pattern when patterns are configured, nothing when unconfigured; the authorization handler redirects only to a prefix approved by that function (ghost state); same host rule for CORS origins.",
+   note=TRUST + "url.Parse/Hostname and regexp.MatchString are uninterpreted trusted contracts; browsers' divergent URL parsing is out of scope.",
+   design="7 (C13)"),
  "C17": dict(
    text="Deductive proof (weakest preconditions over go/ssa, SMT) that getLoginDestination returns only same-origin paths as the property defines them, "
-        "for every submitted string, and that every login/2FA/federated redirect site passes such a value; unbounded in the input.",
+        "for every submitted string, and that every redirect site in the package passes such a value or satisfies its own listed clause; unbounded in the input.",
    note=TRUST + "net/http form parsing (FormValue/Values.Get) and http.Redirect are trusted contracts.",
    design="7 (C17)"),
 }
